@@ -4,27 +4,27 @@ NOTES = ("All checks decide their property by bounded symbolic execution of /rep
 
 CHECKS = {
     "C07": dict(
-        text="Every path of the ASN.1 writers/readers for symbolic integers (|v| <= 2^72 quick, 2^4104 thorough), booleans, OIDs (2..8 arcs, arcs < 2^64), "
-             "tags (class x constructed x number < 2^32), listed content lengths and a nested writer tree is explored; on each path z3 proves the emitted "
+        text="Every path of the ASN.1 writers/readers for symbolic integers (|v| <= 2^72 quick, 2^264 thorough), booleans, OIDs (2..8 arcs, arcs < 2^64), "
+             "tags (class x constructed x number < 2^32), listed content lengths, content whose LENGTH is a solver variable over [0, 2^32) (thorough 2^64), a nested writer tree and 11 operation histories (peek/skip/read/remaining) on one reader is explored; on each path z3 proves the emitted "
              "octets equal an independent minimal-DER reference and the reader returns the value and consumes exactly the encoding. Exhaustive within "
              "those bounds, not beyond.",
         note="Trusted: the symbolic interpreter (cross-checked natively on every explored path), z3, the X.690 reference encoder in props/refs.py. "
-             "Content lengths other than the listed ones are outside the claim."),
+             "Content octets of symbolic-length values are opaque; reader histories other than the listed ones are outside the claim."),
     "C02": dict(
         text="compute_l2_key / compute_l1_key / KeyCache._get_key / get_kek are executed with the envelope position and the requested position symbolic over "
              "the full 32^4 lattice (covering pairs), L0 symbolic, and a chain-step KDF stub whose abstract keys carry symbolic indices; on every path z3 "
-             "proves the returned key is the chain element L2(L1,L2). Non-covering and out-of-range requests must raise ValueError within the step budget.",
+             "proves the returned key is the chain element L2(L1,L2). Non-covering and out-of-range requests must raise ValueError within the step budget. The root-key route is also run after the same cache served a protect at a listed position.",
         note="Trusted: interpreter (per-path native cross-check), z3, the chain-step stub as a faithful statement of MS-GKDI 3.1.4.1.2, collision-freeness of the "
              "real KDF. Quick tier: one hash for the lattice (the hash only selects the stub's algorithm check); thorough: 4 hashes x 3 L0 values on the root route."),
     "C09": dict(
         text="_get_protection_gke_from_cache is executed with time.time_ns() symbolic over [0, 2^63); z3 proves (QF_BV, or QF_BVFP when the code divides in "
-             "floating point) that the (L0,L1,L2) handed to the cache equal floor(t/(1024b)), floor(t/(32b)) mod 32, floor(t/b) mod 32 for every instant.",
+             "floating point) that the (L0,L1,L2) handed to the cache equal floor(t/(1024b)), floor(t/(32b)) mod 32, floor(t/b) mod 32 for every instant. Propagation harnesses parse the key identifier back from the emitted blob (root-key or seed-key cache state, clock in windows around L2/L1/L0 boundaries), including a two-call history with a clock that advances between reads.",
         note="Trusted: interpreter, z3's bit-vector and floating-point theories, the CPython int/int model (correct rounding via 130-bit intermediate). "
              "Clock values outside 1970..2262 are outside the claim."),
     "C16": dict(
         text="RpcClient._process_response (with PDU.unpack, Response._unpack, SecTrailer.unpack below it) is executed on a fully symbolic adversarial reply of each "
              "listed length against an ideal security context holding one authentic sealed reply; on every path that returns a Response z3 proves its stub equals the "
-             "sealed plaintext (and, with header signing, that the trailer is the authenticated one); replies of any other packet type must raise.",
+             "sealed plaintext (and, with header signing, that the trailer is the authenticated one); replies of any other packet type must raise. History: after an altered (rejected) first reply the next request on the same client is still sealed and a second, fully symbolic reply is only accepted if sealed.",
         note="Trusted: interpreter, z3, the ideal-unwrap contract (only the authentic buffers verify). Strength of NTLM/Kerberos sealing and reply lengths not listed "
              "are outside the claim."),
     "C18": dict(
@@ -35,7 +35,7 @@ CHECKS = {
     "C20": dict(
         text="_get_highest_answer, lookup_dc and async_lookup_dc are executed on 1..5 SRV records with symbolic priority/weight/port in any order (the native sort "
              "runs on symbolic keys, so every ordering and tie is a path); z3 proves min-priority/max-weight selection, field preservation, dot stripping, the "
-             "queried name/type/search flag and sync==async.",
+             "queried name/type/search flag and sync==async; duplicate hosts (same / differently spelled) included. The four public functions are run with no server and an uncovered cache against recording lookup / GetKey stubs: the blob's (the caller's) domain is looked up once and GetKey goes to the returned target.",
         note="Trusted: interpreter, z3, resolver stub. More than 5 records and unlisted domain strings are outside the claim."),
     "C12": dict(
         text="Every pack/unpack pair of the DCE/RPC PDUs, security trailer, verification-trailer commands, tower floors and ept_map messages is executed on messages whose "
@@ -45,15 +45,15 @@ CHECKS = {
              "trailer with an empty auth value is treated as not well-formed (auth_length 0 means no trailer)."),
     "C14": dict(
         text="SyncRpcClient._send_pdu and AsyncRpcClient._send_pdu are executed against a transport stub whose read sizes are solver variables (every cut position incl. "
-             "inside the 16-byte header, 2-3 symbolic chunks quick, up to 5 thorough) and whose EOF point is a solver variable over every byte offset; z3/path exploration "
+             "inside the 16-byte header, 12 listed positions inside long body reads, replies of 24..64 bytes and of 324 bytes (thorough up to 65024), 2-3 symbolic chunks quick, up to 5 thorough) and whose EOF point is a solver variable over every byte offset; z3/path exploration "
              "shows the decoded PDU equals the unsegmented decode on every path and that every early EOF raises within the step budget.",
-        note="Trusted: interpreter, the recv/recv_into/readexactly contracts as stubbed. More symbolic chunks and larger replies are outside the claim."),
+        note="Trusted: interpreter, the recv/recv_into/readexactly contracts as stubbed. More symbolic chunks, other reply sizes and unlisted cut positions inside long reads are outside the claim."),
     "C13": dict(
         text="RpcClient._create_request/_prepare_pdu (with Request.pack, SecTrailer.pack, VerificationTrailer.pack) are executed for each listed stub length with symbolic stub "
-             "content, context id and opnum against a recording security-context stub; z3 proves frag_len/auth_len, the 4-byte alignment of the verification trailer, the "
+             "content, and for a stub whose LENGTH is a solver variable (opaque content), context id and opnum against a recording security-context stub; z3 proves frag_len/auth_len, the 4-byte alignment of the verification trailer, the "
              "16-byte alignment and pad_length of the security trailer, that exactly header|stub+pad|trailer reach wrap, and the wire layout. Reply side: exactly pad_length "
              "bytes are stripped before GetKey.unpack_response for every listed (length, pad).",
-        note="Trusted: interpreter, z3, the security-context stub. Stub lengths are listed (0..48 and boundaries quick; 0..320 and boundaries thorough), not symbolic."),
+        note="Trusted: interpreter, z3, the security-context stub. Content-symbolic stubs have listed lengths (0..48 and boundaries quick; 0..320 thorough); the symbolic-length harness covers every length up to its bound with opaque content; a second request on the same client must be framed on its own."),
     "C15": dict(
         text="SyncRpcClient.bind / AsyncRpcClient.bind are executed against a scripted authentication provider (1..4 legs, optional empty final token) and a scripted server "
              "whose reply to each client PDU is chosen by the solver (proper ack with symbolic result vector / header-sign flag / token, bind_nak, fault, response, ack of the "
@@ -71,19 +71,19 @@ CHECKS = {
         text="DPAPINGBlob.pack/unpack with KeyIdentifier, ProtectionDescriptor and all _pkcs7 classes are executed on blob values whose key-identifier fields, root key id, "
              "key_info/enc_cek/nonce and content boundary octets are solver variables (sizes listed across the DER length-form boundaries, both layouts); z3 proves the bytes "
              "equal an independently written RFC 5652 / Windows-layout DER template (calibrated on the 16 real blobs), decode(encode(x)) == x and byte-identical re-encoding. "
-             "_encrypt_blob's GCM parameter construction is checked on its emitted blob.",
+             "_encrypt_blob's GCM parameter construction is checked on its emitted blob. A further harness makes the encrypted content's LENGTH a solver variable over [1, 2^24) (thorough up to 2^32-200): the three nested DER length fields are proved minimal and the blob decodes back, for every length.",
         note="Trusted: interpreter, z3, the reference DER builder. Content lengths / key_info sizes not listed are outside the claim; acceptance by Windows itself is not decided."),
     "C11": dict(
         text="GroupKeyEnvelope, KeyIdentifier, KDFParameters, FFCDHParameters, FFCDHKey, ECDHKey and GetKey.pack/unpack/unpack_response are executed with every integer field "
              "symbolic over its wire width (big integers over [0, 2^(8*key_length)), so all leading-zero values), byte fields of listed lengths with symbolic content and listed "
              "names; z3 proves the bytes equal independent MS-GKDI / NDR64 reference encoders and decode(encode(x)) == x; the response decoder extracts the envelope for every "
-             "length residue mod 8 and raises for a failure HRESULT.",
+             "length residue mod 8 (also with the envelope length a solver variable) and raises for a failure HRESULT.",
         note="Trusted: interpreter, z3, the reference encoders in props/refs.py. Byte-field lengths and names not listed are outside the claim."),
     "C01": dict(
         text="ncrypt_protect_secret -> (optional re-pack to the trailing layout) -> ncrypt_unprotect_secret (and the async twins) are executed end to end, offline, with symbolic "
              "plaintext content, 64 symbolic root-key bytes and a symbolic clock inside windows containing L2/L1/L0 boundaries, against ideal KDF/AEAD/key-wrap/RNG stubs; on "
              "every path z3 proves the returned bytes equal the plaintext symbols and no path ends in an exception. Nonce mode (4 hashes, listed plaintext lengths and SIDs, same or fresh "
-             "KeyCache) and public-key mode (DH / ECDH_P256 / ECDH_P384, the harness plays the DC; decrypted by a root-key holder).",
+             "KeyCache) and public-key mode (DH / ECDH_P256 / ECDH_P384, the harness plays the DC; decrypted by a root-key holder); also decryption by a process that only holds a DC-issued envelope for one of 12 later positions.",
         note="Trusted: interpreter, z3, the ideal-primitive contracts (incl. no collisions between distinct outputs). Bit-level crypto, clock instants outside the windows "
              "(composed from C09 and C02), unlisted lengths/SIDs and P521 are outside this check's claim."),
     "C19": dict(
@@ -94,7 +94,7 @@ CHECKS = {
         note="Trusted: interpreter, z3, the stubs. Statistical quality of the OS RNG is outside the technique; distinctness follows from the RNG assumption."),
     "C04": dict(
         text="A valid blob is produced symbolically by protect (symbolic plaintext, root key, CEK, nonces, ciphertext; both layouts) and then altered: one byte replaced by a "
-             "symbolic value at structural positions (thorough: every position), truncation, deletion and insertion of a symbolic byte, two-site substitutions; unprotect is "
+             "symbolic value at structural positions (thorough: every position), truncation, deletion and insertion of a symbolic byte, two-site substitutions; a re-keyed forgery (position, key_info, wrapped CEK, nonce and content replaced using only public key material); content_decrypt on a message of symbolic length (up to 2^18, thorough 2^21) that is truncated / stripped / cut / extended at solver-chosen points; unprotect is "
              "executed on every path and z3 proves that whenever it returns, the bytes equal the original plaintext symbols.",
         note="Trusted: interpreter, z3, the ideal AEAD / key-wrap / KDF contracts (so the claim is: every byte that can influence the result reaches the authenticated "
              "primitives unchanged; GCM/AES-KW strength is outside). Structure-shifting alterations run on a blob whose opaque contents are fixed pseudo-random octets (see "
@@ -110,21 +110,21 @@ CHECKS = {
         text="One inductive step from an arbitrary valid cache state: KeyCache._get_key and _store_key are executed with the stored envelope (absent or at any position of "
              "[0,31]^2 with the chain keys of its own position), the root-key flag and the requested / stored position all symbolic; z3 proves the representation invariant is "
              "preserved, a returned envelope always covers the request and derives the spec key, no RPC is needed when covering material exists, the stored position never "
-             "decreases and a neighbour triple is untouched. The cache methods' ASTs are checked to contain no await, so interleavings are sequences of these steps. Six "
-             "operation histories run through the public API against a conforming-DC stub with an RPC counter.",
+             "decreases and a neighbour triple is untouched. The cache methods' ASTs are checked to contain no await, so interleavings are sequences of these steps. The protect glue (_get_protection_gke_from_cache then _store_key) is a third step. Nine "
+             "operation histories (seed-key and public-key replies) run through the public API against a conforming-DC stub with an RPC counter.",
         note="Trusted: interpreter, z3, the invariant (MS-GKDI 2.2.4 shapes), chain-step KDF stub, conforming-DC stub. L0 is a listed dictionary key; await-point interleaving of "
              "the async API is argued from the AST check, not executed."),
     "C03": dict(
         text="GroupKeyEnvelope.new_kek / get_kek, compute_kek(_from_public_key), compute_public_key, the FFCDHKey/ECDHKey codecs and the _crypto.kdf / kdf_concat wrappers are "
              "executed for nonce mode, DH (symbolic p, g over small groups where leading-zero values dominate, and the RFC 5114 group) and ECDH P256/P384 with symbolic seeds, "
              "ephemeral keys and coordinates; z3 proves the encrypting side's KEK equals the decrypting side's on every path, that every KDF invocation has exactly the prescribed "
-             "SP800-108 / SP800-56A parameterisation (captured constructor arguments), and that shared secrets and packed values have exactly key_length octets.",
+             "SP800-108 / SP800-56A parameterisation (captured constructor arguments), and that shared secrets and packed values have exactly key_length octets; a two-derivation history with different hashes on the same seed must agree with fresh derivations.",
         note="Trusted: interpreter, z3, DH algebra stub (commutativity only, no coincidences), KDF classes replaced at their constructors. NOT decided: that cryptography's "
              "KBKDFHMAC/ConcatKDFHash/ECDH equal an independent implementation bit for bit (hashing is outside solver reach); P521; other key lengths."),
     "C17": dict(
         text="The public sync and async APIs are executed end to end against a reference domain controller written in the harness (own PDU / NDR64 / tower / MS-GKDI decoders and "
              "encoders, ideal security context, ideal KDF/AEAD/DH): the DC checks every PDU of the conversation (EPM bind + ept_map for the ISD_KEY tower, connection to the returned "
-             "symbolic port, authenticated bind, PKT_PRIVACY-sealed GetKey with the ISD_KEY/NDR64 verification trailer), the decoded request must name exactly the key the blob / "
+             "symbolic port (every port of each decimal digit count, echoed as the bind_ack secondary address), authenticated bind, PKT_PRIVACY-sealed GetKey with the ISD_KEY/NDR64 verification trailer), the decoded request must name exactly the key the blob / "
              "caller asked for, the result must decrypt, and the sync and async transcripts must be byte-wise equal.",
         note="Trusted: interpreter, z3, the reference DC and stubs. One GetKey per run; blob positions from a 3x3 corner set, listed SIDs/hashes; real NTLM/Kerberos, sockets and "
              "Windows are outside the technique."),
